@@ -310,6 +310,35 @@ theorem established_iff (cc sc : Config) (given covered : Bool) (scert : PeerCer
 example : established (Policy.ofConfigs (Config.new []) (runSetters [.verifyClientOptional] (Config.new []))
     true ⟨true, true⟩ true none) (verBits 24) (verBits 24) (verBits 24) = true := by decide
 
+/-- The decision is a function of the LAST configuration only.  `tls_configure` replaces the
+    configuration (a server builds a fresh SSL_CTX from the new config alone, a client does so in
+    `tls_connect_fds`), so whatever a context was configured with before — directly, or with a
+    session attempt and `tls_reset` in between — the policy of the session is the policy of the two
+    last configs, and so is the decision. -/
+theorem decision_uses_last_config (tc ts : TlsCtx) (hc : tc.isServer = false) (hs : ts.isServer = true)
+    (a a' b b' : Config) (given covered : Bool) (scert : PeerCert) (ccert : Option PeerCert) :
+    Policy.ofCtxs ((tc.configure a).configure b).connect ((ts.configure a').configure b') given scert covered ccert
+      = some (Policy.ofConfigs b b' given scert covered ccert) ∧
+    Policy.ofCtxs (((tc.configure a).connect.reset).configure b).connect (((ts.configure a').reset).configure b')
+        given scert covered ccert
+      = some (Policy.ofConfigs b b' given scert covered ccert) ∧
+    ((ts.configure a').configure b').sslCtx = some (SslCtx.ofServerConfig b') := by
+  refine ⟨?_, ?_, ?_⟩
+  · rw [configure_twice, configure_twice]
+    exact policy_of_last tc ts hc hs b b' given scert covered ccert
+  · rw [client_configure_after_reset tc a b hc, server_configure_after_reset ts a' b' hs]
+    exact policy_of_last tc ts hc hs b b' given scert covered ccert
+  · rw [configure_twice]
+    cases ts with
+    | mk s c x => simp only at hs; subst hs; simp [TlsCtx.configure]
+
+example :
+    (Policy.ofCtxs (((TlsCtx.new false []).configure (runSetters [.noVerifyCert, .noVerifyTime] (Config.new []))).configure
+        (Config.new [])).connect
+      (((TlsCtx.new true []).configure (runSetters [.verifyClient, .caFile (some [2])] (Config.new []))).configure
+        (runSetters [.verifyClientOptional, .caFile (some [1])] (Config.new [])))
+      true ⟨true, true⟩ true none).map decision = some true := by decide
+
 /-! ## data -/
 
 /-- Under every schedule of bounded writes, reads and closes of the two endpoints, each side has
